@@ -367,6 +367,13 @@ def py_eq(eng, a, b, node):
     ia, ib = as_int(eng, a), as_int(eng, b)
     if ia is not None and ib is not None:
         return ia == ib
+    if isinstance(a, VSet) and isinstance(b, VSet):
+        # set equality is extensional: equal characteristic arrays (same element sort), or equal concrete member sets
+        if a.members is not None and b.members is not None:
+            return z3.BoolVal(a.members == b.members and getattr(a, "str_members", None) == getattr(b, "str_members", None))
+        if a.arr is not None and b.arr is not None and a.arr.sort() == b.arr.sort():
+            return a.arr == b.arr
+        return fresh_bool("seteq")
     if isinstance(a, VNone) or isinstance(b, VNone):
         if isinstance(a, VNone) and isinstance(b, VNone):
             return z3.BoolVal(True)
@@ -1670,7 +1677,7 @@ def call_method(eng, recv, r, name, args, kwargs, node, frame):
             return VInt(fresh_int("tuple_" + name))
     if isinstance(r, VFunc):
         # os.path.<pure string function>: no effects, and no exception on str/bytes arguments (assumption, listed)
-        pure = name in ("basename", "dirname", "join", "splitext", "normpath") and getattr(r, "name", "") in ("os.path", "path", "posixpath")
+        pure = name in ("basename", "dirname", "join", "splitext", "normpath", "isdir", "isfile", "exists", "islink", "lexists", "isabs") and getattr(r, "name", "") in ("os.path", "path", "posixpath")
         return eng.opaque_call(f"<method {name} of function>", args, node, may_raise=not pure, havoc_args=not pure)
     raise OutOfSubset(node, f"method {name} on {r!r}")
 
